@@ -22,6 +22,9 @@ Transcribed from the code as it is (quirks included):
       kmip/pie/exceptions.py   KmipOperationFailure.__init__ l.45-61
                                (formats `reason.name`: a missing reason is an
                                AttributeError inside the constructor)
+    State of /repo mirrored: after the fix commits fdfcfa2 (a missing Result Message
+    is reported as message None), 6f5b80b (failed Check / DiscoverVersions are
+    reported), 5562c9b, 687b057 (request side, not modelled here).
 
 The decoded payload is a parameter `P` (the codec is C01's business); `Data.proj p`
 stands for "the documented projection of payload `p`" (e.g. the unique identifier
@@ -212,16 +215,14 @@ inductive Outcome (P : Type) where
   | result (cls : ResCls) (status : Nat) (reason : Option Nat) (message : Option String) (payload : Option P)
   deriving DecidableEq, Repr
 
-/-- `reason = result.result_reason.value; message = result.result_message.value;
-raise KmipOperationFailure(status, reason, message)` — pie/client.py l.262-264 and
-the same three lines in every result-object method. `None.value` is an AttributeError. -/
+/-- `reason = result.result_reason.value; message = self._get_result_message(result);
+raise KmipOperationFailure(status, reason, message)` — pie/client.py, the same three
+lines in every result-object method.  `None.value` is an AttributeError (a missing
+reason); `_get_result_message` answers `None` for a missing Result Message. -/
 def raiseFromResultObject {P} (it : Item P) : Outcome P :=
   match it.reason with
   | none => .raised .attributeError
-  | some r =>
-    match it.message with
-    | none => .raised .attributeError
-    | some m => .failure .pie it.status r (some m)
+  | some r => .failure .pie it.status r it.message
 
 /-- `raise KmipOperationFailure(status, result.get('result_reason'), result.get('result_message'))`
 — pie/client.py l.665-669 etc.; the proxy stored `None` for an absent field
@@ -264,13 +265,10 @@ def successBatchProcessor {P} (op : Op) (it : Item P) : Outcome P :=
 def genericHandle {P} (echo : Echo3) (status : Nat) (reason : Option Nat) (message : Option String)
     (payload : Option P) : Outcome P :=
   if status ≠ 0 then
-    -- OperationFailure(status.value, reason.value, message.value)
+    -- OperationFailure(status.value, reason.value, message.value if present else None)
     match reason with
     | none => .raised .attributeError
-    | some r =>
-      match message with
-      | none => .raised .attributeError
-      | some m => .failure .core status r (some m)
+    | some r => .failure .core status r message
   else
     match echo with
     | .absent => .raised .attributeError                         -- batch_item.operation.value
@@ -286,10 +284,7 @@ def proxyResult {P} (op : Op) (it : Item P) : Outcome P :=
   | .absent => .result .operationResult it.status it.reason it.message none
   | .same =>
     match op with
-    | .discoverVersions =>
-      match it.payload with
-      | none => .raised .attributeError                          -- payload.protocol_versions, l.1397-1399
-      | some p => .result .discoverVersionsResult it.status it.reason it.message (some p)
+    | .discoverVersions => .result .discoverVersionsResult it.status it.reason it.message it.payload
     | .rekeyKeyPair => .result .rekeyKeyPairResult it.status it.reason it.message it.payload
     | _ => .result .queryResult it.status it.reason it.message it.payload
 
@@ -302,9 +297,7 @@ def handle {P} (op : Op) (it : Item P) : Outcome P :=
   | .batchProcessor =>
     if it.status = 0 then successBatchProcessor op it else raiseFromResultObject it
   | .dict =>
-    -- KMIPProxy.check reads `payload.usage_limits_count` outside the `if payload:` (l.697-699)
-    if op = .check ∧ it.payload.isNone then .raised .attributeError
-    else if it.status = 0 then .returned (dataOf it.payload) else raiseFromDict it
+    if it.status = 0 then .returned (dataOf it.payload) else raiseFromDict it
   | .generic => genericHandle it.echo.lift it.status it.reason it.message it.payload
   | .proxyResult => proxyResult op it
 
